@@ -533,11 +533,10 @@ class Eval:
             return 11 + 13 * a[2]
         h = 17
         for k, c in a[3]:
-            h = (h * 31 + I.keyhash(k)) % I.P
             cc = self.arg_code(c)
             if isinstance(cc, torch.Tensor):
                 cc = int(cc.reshape(-1)[0])
-            h = (h * 37 + cc) % I.P
+            h = (h + I.entry_code(I.keyhash(k), cc)) % I.P
         return h
 
     def value(self, v):
